@@ -6,6 +6,7 @@ import Driver.WQ
 import Driver.Pub
 import Driver.Stress
 import Driver.Maps
+import Driver.Server
 
 def main (args : List String) : IO UInt32 := do
   match args with
@@ -16,6 +17,8 @@ def main (args : List String) : IO UInt32 := do
   | ["stackconc"] => Driver.Stack.main; return 0
   | ["wq"] => Driver.WQ.main; return 0
   | ["pub"] => Driver.Pub.main; return 0
+  | ["server"] => Driver.Server.main; return 0
+  | ["lifecycle"] => Driver.Server.main; return 0
   | ["maps"] => Driver.Maps.main; return 0
   | ["mapsconc"] => Driver.Maps.main; return 0
   | ["wqstress"] => Driver.Stress.main Driver.Stress.wq; return 0
